@@ -57,6 +57,15 @@ fn run_inplace(op: &str, l: usize) -> (String, String) {
         "add_in_place" => dasp_slice::add_in_place(&mut a[..], &b[..]),
         _ => dasp_slice::zip_map_in_place(&mut a[..], &b[..], |x: [i16; 2], y: [i16; 2]| [x[0].wrapping_sub(y[1]), x[1] ^ y[0]]),
     }
+    // add_in_place on [i32; 2] frames whose values need more than 24 significant bits (exact integer addition required)
+    if op == "add_in_place" {
+        let a32: Vec<[i32; 2]> = (0..l).map(|i| [16_777_217 + i as i32 * 5, -1_000_000_007 + i as i32]).collect();
+        let b32: Vec<[i32; 2]> = (0..l).map(|i| [33_554_433 + i as i32, 123_456_789 - i as i32 * 3]).collect();
+        let mut x = a32.clone();
+        dasp_slice::add_in_place(&mut x[..], &b32[..]);
+        let w: Vec<[i32; 2]> = (0..l).map(|i| [a32[i][0] + b32[i][0], a32[i][1] + b32[i][1]]).collect();
+        return (format!("{:?} {:?}", a, x), format!("{:?} {:?}", want, w));
+    }
     (format!("{:?}", a), format!("{:?}", want))
 }
 
